@@ -8,6 +8,7 @@ import XmppModel.Generated.C06
 import XmppModel.Lemmas.CorrAttrs
 import XmppModel.Model.CorrWrap
 import XmppModel.Model.CorrExpect
+import XmppModel.Model.CorrIbb
 /-!
 # C06 — every correlated wait ends exactly once with its own reply or its context error
 
@@ -647,5 +648,234 @@ example : CorrExpect.run {} [.expect 0 0, .expect 1 1, .cancel 0, .openReq 0, .a
     = [[], [], [.err 0], [], [.accConn 0], [.conn 1 1]] := by decide
 
 end Expect
+
+/-! ## The waits of one in-band bytestream (`Model/CorrIbb.lean`) -/
+section Ibb
+open XmppModel.CorrIbb
+
+/-- no `Read` call waits while there is something for it: whenever calls wait, the signal has been
+taken, the buffer is empty and the stream is open -/
+def Good (s : CorrIbb.St) : Prop := s.readers > 0 → s.token = false ∧ s.buf = 0 ∧ s.readClosed = false
+
+/-- packets are no larger than the buffers the application reads with -/
+def OpOk (c : CorrIbb.Cfg) : CorrIbb.Op → Prop
+  | .data _ n _ => n ≤ c.cap
+  | _ => True
+
+theorem settle_closed (c : CorrIbb.Cfg) : ∀ (f : Nat) (s : CorrIbb.St), s.readClosed = true → s.token = true → s.readers ≤ f →
+    (settle c f s).1.readers = 0
+  | 0, s, _, _, h => by simp only [settle]; omega
+  | f + 1, s, hc, ht, h => by
+    by_cases hr : s.readers > 0
+    · simp only [settle, ht, hr, hc, decide_true, Bool.and_self, if_true]
+      exact settle_closed c f _ (by first | rfl | exact hc) (by first | rfl | exact ht) (by simp only; omega)
+    · simp only [settle, hr, decide_false, Bool.and_false]
+      simp only [Bool.false_eq_true, if_false]; omega
+
+theorem settle_open (c : CorrIbb.Cfg) (f : Nat) (s : CorrIbb.St) (hc : s.readClosed = false) (hb : s.readers > 0 → s.buf ≤ c.cap)
+    (h : s.token = false → s.readers > 0 → s.buf = 0) (hf : s.readers > 0 → f > 0) : Good (settle c f s).1 := by
+  cases f with
+  | zero =>
+    intro hr
+    simp only [settle] at hr
+    exact absurd (hf hr) (by omega)
+  | succ f =>
+    by_cases ht : s.token = true <;> by_cases hr : s.readers > 0
+    · by_cases hbuf : s.buf > 0
+      · simp only [settle, ht, hr, hc, hbuf, decide_true, Bool.and_self, if_true, Bool.false_eq_true, if_false]
+        intro _
+        refine ⟨rfl, ?_, by first | rfl | exact hc⟩
+        have := hb hr
+        simp only; omega
+      · simp only [settle, ht, hr, hc, hbuf, decide_true, Bool.and_self, if_true, Bool.false_eq_true, if_false]
+        intro _
+        refine ⟨rfl, ?_, by first | rfl | exact hc⟩
+        simp only; omega
+    · simp only [settle, hr, decide_false, Bool.and_false, Bool.false_eq_true, if_false]
+      intro h'; exact absurd h' hr
+    · simp only [settle, ht, Bool.false_and, Bool.false_eq_true, if_false]
+      intro _
+      have : s.token = false := by cases hT : s.token <;> simp_all
+      exact ⟨this, h this hr, hc⟩
+    · simp only [settle, ht, Bool.false_and, Bool.false_eq_true, if_false]
+      intro h'; exact absurd h' hr
+
+theorem closeRead_good (c : CorrIbb.Cfg) (s : CorrIbb.St) : Good (closeRead c s).1 := by
+  intro hr
+  have : (closeRead c s).1.readers = 0 := by
+    simp only [closeRead, settled, wake]
+    exact settle_closed c _ _ rfl rfl (Nat.le_refl _)
+  omega
+
+theorem closeProceed_good (c : CorrIbb.Cfg) (s : CorrIbb.St) (h : Good s) : Good (closeProceed c s).1 := by
+  simp only [closeProceed]
+  split
+  · exact closeRead_good c _
+  · exact h
+
+/-- **every blocked-reader scenario, both carriers**: if the wake-up does not depend on the
+carrier, then after every operation — packets in iqs and in messages, in and out of order, the
+peer's close, local writes and their replies, a local `Close` and its reply — no `Read` call is
+left waiting while the buffer holds data or the stream has ended -/
+theorem C06_ibb_no_read_left_waiting (c : CorrIbb.Cfg) (hw : c.wakeOnlyAcked = false) (s : CorrIbb.St) (o : CorrIbb.Op)
+    (hok : OpOk c o) (h : Good s) : Good (CorrIbb.step c s o).1 := by
+  cases o with
+  | read =>
+    simp only [CorrIbb.step]
+    split
+    · rename_i hcond
+      simp only [Bool.and_eq_true, beq_iff_eq, Bool.not_eq_true'] at hcond
+      simp only [settled]
+      apply settle_open
+      · exact hcond.2
+      · intro _; simp only [hcond.1]; omega
+      · intro _ _; exact hcond.1
+      · intro hq; first | exact hq | omega
+    · intro hr
+      have := h hr
+      rename_i hcond
+      simp only [Bool.and_eq_true, beq_iff_eq, Bool.not_eq_true', not_and, Bool.not_eq_false] at hcond
+      exact absurd (hcond this.2.1) (by simp [this.2.2])
+  | data viaIq n inorder =>
+    simp only [OpOk] at hok
+    simp only [CorrIbb.step, hw, Bool.false_and, Bool.false_eq_true, if_false]
+    split
+    · exact h
+    · split
+      · exact h
+      · split
+        · exact h
+        · rename_i _ hx _
+          simp only [Bool.or_eq_true, Bool.not_eq_true', not_or, Bool.not_eq_false, Bool.not_eq_true] at hx
+          simp only [settled, wake]
+          apply settle_open
+          · exact hx.2
+          · intro hr
+            simp only at hr ⊢
+            simp only [(h hr).2.1]; omega
+          · intro ht; simp at ht
+          · intro hr; simpa using hr
+  | peerClose =>
+    simp only [CorrIbb.step]
+    split
+    · exact h
+    · split
+      · exact h
+      · split
+        · exact h
+        · split
+          · exact h
+          · exact closeRead_good c _
+  | write =>
+    simp only [CorrIbb.step]
+    split
+    · exact h
+    · split <;> exact h
+  | ack ok =>
+    simp only [CorrIbb.step]
+    split
+    · exact h
+    · split
+      · exact closeProceed_good c _ h
+      · exact h
+  | close =>
+    simp only [CorrIbb.step]
+    split
+    · exact h
+    · split
+      · exact h
+      · exact closeProceed_good c _ h
+  | closeReply ok =>
+    simp only [CorrIbb.step]
+    split
+    · exact h
+    · exact closeRead_good c _
+
+/-- … lifted to every history -/
+theorem C06_ibb_no_read_left_waiting_reach (c : CorrIbb.Cfg) (hw : c.wakeOnlyAcked = false) (ops : List CorrIbb.Op) :
+    ∀ (s0 : CorrIbb.St), (∀ o ∈ ops, OpOk c o) → Good s0 → Good (CorrIbb.final c s0 ops) := by
+  induction ops with
+  | nil => intro s0 _ h; exact h
+  | cons o os ih =>
+    intro s0 hall h
+    simp only [CorrIbb.final]
+    exact ih _ (fun o' ho' => hall o' (List.mem_cons_of_mem _ ho'))
+      (C06_ibb_no_read_left_waiting c hw s0 o (hall o List.mem_cons_self) h)
+
+/-- a `Read` that already waits gets the packet, whichever stanza kind carries it -/
+theorem C06_ibb_waiting_read_gets_packet (c : CorrIbb.Cfg) (hw : c.wakeOnlyAcked = false) (s : CorrIbb.St) (viaIq : Bool)
+    (n : Nat) (hn : 0 < n) (hcap : n ≤ c.cap) (hg : Good s) (hr : s.readers > 0)
+    (hs : s.serveBlocked = false) (ht : s.inTable = true) :
+    Ev.readRet n ∈ (CorrIbb.step c s (.data viaIq n true)).2 := by
+  obtain ⟨ht', hb, hc⟩ := hg hr
+  cases hk : s.readers with
+  | zero => omega
+  | succ k =>
+    cases viaIq <;>
+      simp [CorrIbb.step, hs, ht, hc, hw, settled, wake, hk, settle, hb, hn, Nat.min_eq_left hcap]
+
+/-- the stream ends up in the same state whether a packet came in an iq or in a message -/
+theorem C06_ibb_wake_whatever_the_carrier (c : CorrIbb.Cfg) (hw : c.wakeOnlyAcked = false) (s : CorrIbb.St) (n : Nat) (io : Bool) :
+    (CorrIbb.step c s (.data true n io)).1 = (CorrIbb.step c s (.data false n io)).1 := by
+  simp only [CorrIbb.step, hw, Bool.false_and, Bool.false_eq_true, if_false]
+  repeat' split
+  all_goals rfl
+
+/-- what the loop of `Read` leaves alone -/
+theorem settle_frame (c : CorrIbb.Cfg) : ∀ (f : Nat) (s : CorrIbb.St),
+    (settle c f s).1.serveBlocked = s.serveBlocked ∧ (settle c f s).1.wpend = s.wpend ∧ (settle c f s).1.k = s.k
+  | 0, s => by simp [settle]
+  | f + 1, s => by
+    simp only [settle]
+    split
+    · split
+      · have := settle_frame c f { s with readers := s.readers - 1, buf := s.buf - min s.buf c.cap, rRet := s.rRet + 1 }
+        simpa using this
+      · split <;> simp
+    · simp
+
+/-- **peer stanzas while a local write waits for its acknowledgement**: the close handler does not
+wait for the write lock, so the peer's close request is answered although a `Flush` holds the
+lock, the serve loop goes on, and the acknowledgement that follows still ends the `Flush` -/
+theorem C06_ibb_peer_close_answered_while_write_waits (c : CorrIbb.Cfg) (hl : c.handlerLocks = false) (s : CorrIbb.St)
+    (hs : s.serveBlocked = false) (ht : s.inTable = true) (hw : s.wpend = true) (ok : Bool) :
+    let s1 := (CorrIbb.step c s .peerClose).1
+    Ev.closeResult ∈ (CorrIbb.step c s .peerClose).2 ∧ s1.serveBlocked = false ∧
+      Ev.writeRet ok ∈ (CorrIbb.step c s1 (.ack ok)).2 := by
+  by_cases hc : s.closed = true
+  · simp [CorrIbb.step, hs, ht, hc, hw]
+    split <;> simp
+  · have hc' : s.closed = false := by cases h : s.closed <;> simp_all
+    have fr := settle_frame c s.readers (wake { s with closed := true, inTable := false, readClosed := true })
+    simp only [wake, hs, hw] at fr
+    simp only [CorrIbb.step, hs, ht, hc', hl, hw, closeRead, settled, wake, Bool.false_eq_true, if_false, Bool.not_true,
+      Bool.false_and, List.mem_append, List.mem_singleton, or_true, true_and]
+    refine ⟨fr.1, ?_⟩
+    simp only [fr.1, fr.2.1, Bool.false_or, Bool.not_true, Bool.false_eq_true, if_false]
+    split <;> simp
+
+/-- negation witness for the other choice (`if e == nil || !ok { return nil }` in front of the
+wake-up): on a message-carried stream the waiting `Read` is left behind with the data in the buffer -/
+theorem C06_ibb_message_wake_is_needed :
+    (CorrIbb.final { wakeOnlyAcked := true } { acked := false } [.read, .data false 3 true]).readers = 1 ∧
+    (CorrIbb.final { wakeOnlyAcked := true } { acked := false } [.read, .data false 3 true]).buf = 3 := by decide
+
+/-- negation witness for the other choice (the close handler's flush takes the write lock): the
+peer's close request overtakes the acknowledgement — serve loop and `Flush` wait for each other -/
+theorem C06_ibb_locking_close_handler_deadlocks :
+    (CorrIbb.final { handlerLocks := true } {} [.write, .peerClose, .ack true]).serveBlocked = true ∧
+    (CorrIbb.final { handlerLocks := true } {} [.write, .peerClose, .ack true]).wpend = true ∧
+    (CorrIbb.final { handlerLocks := true } {} [.write, .peerClose, .ack true]).wRet = 0 := by decide
+
+-- non-vacuity: the same histories on the code's choices
+example : CorrIbb.run {} { acked := false } [.read, .data false 3 true] = [[], [.readRet 3]] := by decide
+example : CorrIbb.run {} {} [.read, .read, .data true 2 true, .peerClose] = [[], [], [.ackData, .readRet 2], [.readRet 0, .closeResult]] := by decide
+example : CorrIbb.run {} {} [.write, .peerClose, .ack true] = [[.sentData], [.closeResult], [.writeRet true]] := by decide
+example : CorrIbb.run {} {} [.write, .close, .peerClose, .ack true, .closeReply true]
+    = [[.sentData], [], [.closeResult], [.writeRet true, .sentClose], [.closeRet true]] := by decide
+example : (CorrIbb.final {} {} ([.read, .write, .close] ++ epilogue)).quiet = true := by decide
+example : Good ({} : CorrIbb.St) := by intro h; simp at h
+
+end Ibb
 
 end XmppModel.Props.C06
